@@ -3,6 +3,7 @@ package main
 import (
 	"fmt"
 	"os"
+	"runtime/pprof"
 
 	"go.etcd.io/etcd/raft/v3"
 	"verif/pool"
@@ -33,6 +34,13 @@ func main() {
 			os.Exit(2)
 		}
 		os.Exit(replayFile(os.Args[2]))
+	}
+	if p := os.Getenv("RAFTMC_CPUPROF"); p != "" {
+		f, _ := os.Create(p)
+		pprof.StartCPUProfile(f)
+		code := run(os.Args[1])
+		pprof.StopCPUProfile()
+		os.Exit(code)
 	}
 	os.Exit(run(os.Args[1]))
 }
